@@ -588,6 +588,10 @@ class SymEval:
             if isinstance(proj, tuple):
                 _, tmpl, inner_elem, inner_conds = proj
                 m = {inner_elem: el} if inner_elem is not None else {}
+                if inner_elem is not None and inner_elem[0] == "elem" and inner_elem[2] in self.loops and inner_elem[2] not in self.loop_stack:
+                    # a second pass over what an earlier (finished) loop over the same source collected: its items keep naming that
+                    # loop's element (the same slot, in the same order), so what the two passes do to one item can be compared
+                    m = {}
                 self.assign(target, T.subst(tmpl, m), frame, st)
                 self.live = T.mk_and([live0] + [T.subst(c, m) for c in inner_conds])
             else:
@@ -605,6 +609,8 @@ class SymEval:
             for n in set(env_out) | set(env_c):
                 a, b = env_c.get(n), env_out.get(n)
                 if a is not None and b is not None and a != b and a[0] != "closure" and b[0] != "closure":
+                    if b[0] == "accum" and (a == b[1] or (a[0] == "accum" and a[1] == b[1] and b[2][:len(a[2])] == a[2])):
+                        continue  # the list as it was at the `continue`, extended afterwards: each later item carries its own condition
                     env_out[n] = T.mk_ite(gc, a, b)
         frame.env.update({n: v for n, v in env_out.items() if n in frame.env})
         live_out = self.live
@@ -1024,6 +1030,12 @@ class SymEval:
         q = _count_quantifier(op, a, b)
         if q is not None:
             return q
+        if isinstance(op, (ast.Eq, ast.NotEq, ast.Is, ast.IsNot)):
+            # a truth value compared with True / False: bool(x) is True  is  x,  bool(x) == False  is  not x
+            for u, k in ((a, b), (b, a)):
+                if k[0] == "const" and isinstance(k[1], bool) and ((u[0] == "call" and u[1] == "bool" and len(u[2]) == 1 and not u[3]) or T._is_bool(u)) and u[0] != "const":
+                    t = self.as_bool(u)
+                    return t if (k[1] is True) == isinstance(op, (ast.Eq, ast.Is)) else T.mk_not(t)
         if isinstance(op, ast.Lt):
             return T.lt(a, b)
         if isinstance(op, ast.LtE):
